@@ -710,10 +710,24 @@ mod os {
     impl super::PopenOs for Popen {
         fn os_start(&mut self, argv: Vec<OsString>, config: PopenConfig) -> Result<()> {
             let mut exec_fail_pipe = posix::pipe()?;
+            // The child installs its streams over descriptors 0-2.  In a
+            // parent that runs with some of those closed, the write end of
+            // this pipe can land there, and the child would overwrite it
+            // before it could report a failed exec.  Move it out of the way
+            // (try_clone() returns a descriptor above 2), and keep the
+            // original open until the streams are set up, so that their
+            // pipes cannot take its place.
+            let low_fd = if exec_fail_pipe.1.as_raw_fd() <= 2 {
+                let moved = exec_fail_pipe.1.try_clone()?;
+                Some(std::mem::replace(&mut exec_fail_pipe.1, moved))
+            } else {
+                None
+            };
             set_inheritable(&exec_fail_pipe.0, false)?;
             set_inheritable(&exec_fail_pipe.1, false)?;
             {
                 let child_ends = self.setup_streams(config.stdin, config.stdout, config.stderr)?;
+                drop(low_fd);
                 let child_env = config.env.as_deref().map(format_env);
                 let cmd_to_exec = config.executable.as_ref().unwrap_or(&argv[0]);
                 let just_exec = posix::prep_exec(cmd_to_exec, &argv, child_env.as_deref())?;
